@@ -261,7 +261,11 @@ class PseudoNetCDFVariable(np.ndarray):
         object.__setattr__(self, '_ncattrs', nncattrs)
         if hasattr(obj, '_ncattrs'):
             for k in nncattrs:
-                if not hasattr(self, k):
+                # an attribute can be named like a method of ndarray (max,
+                # min, mean): what counts is whether this instance has it
+                if k not in self.__dict__ and not hasattr(
+                    getattr(type(self), k, None), '__set__'
+                ):
                     object.__setattr__(self, k, getattr(obj, k))
 
     def swapaxes(self, a1, a2):
